@@ -200,12 +200,12 @@ def run(ctx, chk):
     sub = type(chk)('C17', LEVEL, chk.tier)
     sub._nested = True
     info = C04.wipe_sequence(fb, sub)
-    if info is not None:
-        typed = [w for w, _ in info['seq'] if w != 'fill']
-        want = []
-        for f in sorted(hdr['variants'][0]['fields'], key=lambda f: f['offset']):
-            want += [4, 4] if f['name'] == 'magic' else [f['size']]
-        chk.ob('C17.Y6', 'wipe:writes-follow-header', typed == want, info['where'], 'wipe writes %s, header widths %s' % (typed, want))
+    for inf in (info['all'] if info is not None else []):
+        img = inf['image']
+        want = C04.header_fields(fb)
+        got = {name: C04.image_value(img, off, w) for off, w, name in want}
+        chk.ob('C17.Y6', 'wipe:writes-follow-header', all(v is not None for v in got.values()) and img.total is not None, inf['where'],
+               'the image written to the new file holds, at the header offsets %s: %s (total %s bytes)' % (want, got, img.total))
     chk.tables['doc_layout'] = [{k: v for k, v in f.items()} for f in d['fields']]
     chk.tables['c_records'] = {k: v.get('layout') for k, v in cf.records.items()}
 
